@@ -56,6 +56,7 @@ type Engine struct {
 
 type globalInfo struct {
 	val   Value
+	defs  []Hyp
 	facts []globalFact
 	end   int64
 }
@@ -398,6 +399,9 @@ func (e *Engine) globalVar(x *Exec, st *State, o *types.Var) Value {
 			gi = e.evalGlobalInit(p, o, cl)
 			e.globalInit[o] = gi
 		}
+		for _, d := range gi.defs {
+			st.assume(d.T, "global-init-def:"+o.Name())
+		}
 		for _, f := range gi.facts {
 			h := x.declareOnce("H_"+f.key+"_0", HeapSort(f.es))
 			st.assume(Eq(Select(h, f.ref), f.arr), "global-init:"+o.Name())
@@ -432,14 +436,19 @@ func (e *Engine) evalGlobalInit(p *packages.Package, o *types.Var, cl *ast.Compo
 	v := x.evalComposite(st, cl, false)
 	end, _ := intLit(st.alloc)
 	gi := &globalInfo{val: v, end: end.Int64()}
+	gi.defs = append(gi.defs, st.pc...)
+	for _, d := range decls {
+		f := strings.Fields(d)
+		if len(f) >= 2 && strings.HasPrefix(f[1], "H_") && strings.HasSuffix(f[1], "_0") {
+			continue // entry heaps are declared by the function under verification
+		}
+		e.declareGlobal(d)
+	}
 	for _, key := range sortedKeys(st.heaps) {
 		h := st.heaps[key]
 		es := elemOfArr(elemOfArr(h.Sort))
 		e.heapElemSort[key] = es
 		for r := globalRefBase; r < end.Int64(); r++ {
-			if !strings.Contains(h.S, fmt.Sprintf(" %d ", r)) {
-				continue
-			}
 			gi.facts = append(gi.facts, globalFact{key, es, Int(r), Select(h, Int(r))})
 		}
 	}
